@@ -5,8 +5,10 @@ Executable model of `pkg/expressions/stdmath` (tokenizer.go, parser.go, ops.go, 
 expression.go) as of the repaired code (`%` by zero and negative shift counts give NaN, a
 dangling unary operator is a compile error).
 
-Everything is generic in the arithmetic `A : Arith α` (float64 in the real code; the driver
-instantiates it with Lean `Float`, theorems keep it abstract or use `Rat`).  Next to the compiled
+Everything is generic in the arithmetic `A : Arith α` (float64 in the real code).  Instances:
+`IEEE.arith L` / `IEEE.arithT` over the software binary64 model (`Model/C19F64.lean`: the instance of
+the `*_f64` theorems and of the driver), the exact `ratArith` (`Proofs/C19Rat.lean`, examples), and
+the native-`Float` instance of `Model/C19Float.lean` (driver-only cross-check).  Next to the compiled
 expression (`Expr`, what Go builds, simplified) every function also returns the ghost parse tree
 (`Tree`, never simplified, groups kept) that the specification talks about.
 -/
